@@ -44,7 +44,8 @@ def truncated(rng, text):
 
 def compile_key(parser, text):
     try:
-        ok = parser.parse(text)
+        with lang.time_limit(10):
+            ok = parser.parse(text)
     except Exception as ex:
         return 'X#' + type(ex).__name__ + ': ' + str(ex)[:80]
     if ok:
@@ -82,7 +83,8 @@ def compile_histories(ctx, n_hist):
             kind, t = gen_text(rng)
             if use_job:
                 try:
-                    job.load_string(t)
+                    with lang.time_limit(10):
+                        job.load_string(t)
                 except Exception:
                     pass
                 got = ('A#' + lang.show_program(job.program)) if job.program is not None else 'R#' + job.compile_errors
@@ -162,7 +164,8 @@ class JobRunner:
         from bardolph.controller.script_job import ScriptJob
         from bardolph.vm.vm_codes import OpCode
         job = ScriptJob()
-        job.load_string(text)
+        with lang.time_limit(10):
+            job.load_string(text)
         m = job._machine
         ctl = {'steps': 0, 'stop_at': None, 'exc': None, 'max': 6000, 'fuel': False}
         self.ctl[id(job)] = ctl
